@@ -3,6 +3,7 @@
 From Coq Require Import ZArith Reals List.
 From FF Require Import Base.Ops Inst.RInst Base.RAlg Base.FMat Model.Numeric Model.Decay Model.Cumulant
      Model.Tie.C12 Proofs.CMBase Proofs.BasisIndep Proofs.FrameInv Proofs.PauliOnb Proofs.Trapz Proofs.Decay Proofs.TraceId Proofs.BasisChange Proofs.BasisChange2 Proofs.InfidBasis Proofs.EtmCovariance.
+From FF Require Import Model.Atomic Proofs.EigIndep Proofs.InfidPos Proofs.EigChoice.
 From FF Require Model.Consts Inst.Param Corr.Agree Corr.Obs Corr.ObsC08.
 Import ListNotations.
 Local Open Scope R_scope.
@@ -154,6 +155,42 @@ Theorem C12_process_fidelity_taylor_invariant : forall n (O : nat -> nat -> R),
   forall (K' K : RMr) M, conj_rel n O K' K ->
   sumn' n (fun i => rmget RO (exp_taylor RO n K' M) i i) = sumn' n (fun a => rmget RO (exp_taylor RO n K M) a a).
 Proof. exact process_fidelity_taylor_invariant. Qed.
+
+(* ---------- independence of the choice of eigenvectors (degenerate spectra included) ---------- *)
+(* [same_segs d evs Vs evs' Vs'] (agent-c03, Proofs/EigIndep.v): segment by segment, (ev, V) and (ev', V') are unitary
+   decompositions of the same Hermitian matrix.  The control matrix is then the same (C03_cm_eig_independent); corollaries: *)
+Theorem C12_ff_eig_independent : forall d thr om (bs ns : list MatR) evs evs' Vs Vs' nc dts,
+  same_segs d evs Vs evs' Vs' -> forall a b o, (a < length ns)%nat -> (b < length ns)%nat -> (o < length om)%nat ->
+  a3get RO (filter_function RO (length ns) (length bs) (length om) (cm_of d thr om bs ns nc dts evs Vs)) a b o =
+  a3get RO (filter_function RO (length ns) (length bs) (length om) (cm_of d thr om bs ns nc dts evs' Vs')) a b o.
+Proof. exact ff_eig_independent. Qed.
+Print Assumptions C12_ff_eig_independent.
+Theorem C12_decay_eig_independent : forall d thr om (bs ns : list MatR) evs evs' Vs Vs' nc dts,
+  same_segs d evs Vs evs' Vs' -> forall idx (sp : spectrumR), idx_ok (length ns) idx ->
+  forall pars use_ff pars' use_ff' i j k l,
+  (i < length idx)%nat -> (j < length idx)%nat -> (is_cross sp = false -> i = j) -> (k < length bs)%nat -> (l < length bs)%nat ->
+  dget RO (decay_amplitudes RO pars use_ff (length ns) (length bs) (length om) (cm_of d thr om bs ns nc dts evs Vs)
+             (cm_of d thr om bs ns nc dts evs Vs) idx sp om) (lead_pos sp (length idx) i j) k l =
+  dget RO (decay_amplitudes RO pars' use_ff' (length ns) (length bs) (length om) (cm_of d thr om bs ns nc dts evs' Vs')
+             (cm_of d thr om bs ns nc dts evs' Vs') idx sp om) (lead_pos sp (length idx) i j) k l.
+Proof. exact decay_eig_independent. Qed.
+Theorem C12_infidelity_eig_independent : forall d thr om (bs ns : list MatR) evs evs' Vs Vs' nc dts,
+  same_segs d evs Vs evs' Vs' -> forall idx (sp : spectrumR), idx_ok (length ns) idx -> forall basis : list MatR,
+  infidelity_total RO d (length ns) (length bs) (length om) (cm_of d thr om bs ns nc dts evs Vs) basis idx sp om =
+  infidelity_total RO d (length ns) (length bs) (length om) (cm_of d thr om bs ns nc dts evs' Vs') basis idx sp om.
+Proof. exact infidelity_eig_independent. Qed.
+Print Assumptions C12_infidelity_eig_independent.
+(* cumulant function (either branch) of the decay amplitudes of pair (i,j); the frequency shifts Dl are an input here (C10) *)
+Theorem C12_cumulant_eig_independent : forall d thr om (bs ns : list MatR) evs evs' Vs Vs' nc dts,
+  same_segs d evs Vs evs' Vs' -> forall idx (sp : spectrumR), idx_ok (length ns) idx ->
+  forall shortcut (basis : list MatR) second (Dl : RMr) i j, (i < length idx)%nat -> (j < length idx)%nat ->
+  cumulant_function RO d shortcut (length bs) basis second
+    [rmbuild (length bs) (length bs) (fun k l => Gamma (cm_of d thr om bs ns nc dts evs Vs) (cm_of d thr om bs ns nc dts evs Vs) idx sp (length om) om i j k l)] [Dl] =
+  cumulant_function RO d shortcut (length bs) basis second
+    [rmbuild (length bs) (length bs) (fun k l => Gamma (cm_of d thr om bs ns nc dts evs' Vs') (cm_of d thr om bs ns nc dts evs' Vs') idx sp (length om) om i j k l)] [Dl].
+Proof. exact cumulant_eig_independent. Qed.
+Example C12_same_segs_degenerate : same_segs 2 [[1; 1]] [exI] [[1; 1]] [exRot].
+Proof. exact same_segs_degenerate. Qed.
 
 (* hypotheses satisfiable *)
 Example C12_unitary_example : funitary 2 (toF Wx).
